@@ -140,6 +140,27 @@ CHECKS = {
         note="quick replays a seeded sample of the enumerated orders/lists, thorough all of them",
         technique="TLA+ spec + TLC exhaustive enumeration; replay; trace validation by TLC",
     ),
+    "C18": dict(
+        category="exploration",
+        text=("Drivers built with -race run N in {2,4,16} goroutines x seeds x GOMAXPROCS in {1,2,4,16} against one DB handle, one table reader "
+              "(default index loader) and one mmap RecordIO reader; race reports and panics are events no specification action matches; every "
+              "reply is judged by TLC: database histories on SimpleDBTrace.tla + KVLinTrace.tla, concurrent table reads on SSTableTrace.tla, "
+              "concurrent ReadNextAt/SeekNext on RecordIOTrace.tla (single-threaded answers); the lock discipline of SimpleDB.tla is "
+              "model-checked over all interleavings (shared with C05)."),
+        design_ref="§5 C18, §8",
+        note="data-race freedom is the Go race detector's verdict on sampled executions; TLA+ decides the replies and the model's lock discipline",
+        technique="race-detector exploration of real executions; replies trace-validated by TLC against the TLA+ specs",
+    ),
+    "C19": dict(
+        category="model_checking",
+        text=("Resources.tla (one WAL descriptor, one mapping per live table, flush +1, compaction -k+1, Close releases all and joins both "
+              "goroutines) is model-checked; real sessions with hundreds of flush / compaction / open / close cycles (GC off) are observed at "
+              "quiescent points through /proc/self/fd, /proc/self/maps and the goroutine dump, library readers/writers/WAL through complete and "
+              "abandoned scans; TLC judges ObsOk (descriptors + mappings <= live tables + 4 while open; none and no module goroutine after Close)."),
+        design_ref="§5 C19",
+        note="observations only outside a running compaction cycle (its private readers are bounded by the inputs); Linux /proc",
+        technique="TLA+ spec + TLC exhaustive check; observations of real executions trace-validated by TLC",
+    ),
     "C20": dict(
         category="translation_validation",
         text=("Per file written by the real writer (seeded record sequences incl. nil / empty, six payload families, four compression types) three "
